@@ -13,6 +13,9 @@ CHECKS["C01"] = ("model_checking", "bounded-exhaustive explicit-state exploratio
 CHECKS["C03"] = ("exploration", "bounded-exhaustive enumeration: all single structure-aware mutations of every seed config in the tree, all token strings up to length 5 over a 24-token alphabet, complete self-reference families; crash/diagnostic oracle with per-input crash attribution in worker processes",
   "Every text of three complete finite spaces is parsed by the real parser; each yields Ok or a diagnostic whose spans are readable from the named source and whose rendering returns; no panic, no abort. Exhaustive over the stated spaces (exhaustive=true in the evidence when no cap was hit).",
   "texts more than one mutation away from every seed / longer than 5 tokens are not covered; termination approximated by the deadline", "DESIGN.md §4 C03")
+CHECKS["C10"] = ("translation_validation", "exhaustive enumeration of boolean expression programs up to a size bound (all shapes, all truth assignments), all short case lists, complete leaf-semantics tables and threshold boundary scans; each program compiled by the real parser and executed by the real layout, compared with the recursive reading of the source s-expression",
+  "For every enumerated program text the compiled switch/fork behaves as the written expression under every truth assignment; decision boundaries of key-timing lie within the documented resolution. Exhaustive over the stated program space.",
+  "truth assignments realised through held keys; expression shapes beyond the node bound (except single-path chains to the maximum depth) not enumerated", "DESIGN.md §4 C10")
 NOT_YET = {}
 props = [json.loads(l) for l in open('/verif/properties.jsonl')]
 hooks_commits = subprocess.run(["git","-C","/repo","log","--format=%h %s"],capture_output=True,text=True).stdout.splitlines()
